@@ -87,6 +87,15 @@ class MachO(BinFormat):
         return self.__file.name
 
     def __init__(self, f):
+        try:
+            self.__load(f)
+        except (MachOError, StructureError):
+            raise
+        except Exception as e:
+            # malformed content is reported with the format's own error type
+            raise MachOError("malformed Mach-O file (%s: %s)" % (type(e).__name__, e))
+
+    def __load(self, f):
         self.__file = f
         self.__entry = None
         self._is_fat = False
